@@ -2,31 +2,48 @@
 (* Trace validation of the real Context.Respond (through the untyped handler *)
 (* and through the generated-server call sequence) against Respond.tla.     *)
 (* case  : one API [route_produces (in the order the router holds them),    *)
-(*         default, registry, declared, secure, realm, authkind]            *)
+(*         default, registry, secure, realm, authkind]; every method of /op *)
+(*         declares its own response codes (event field `declared`), half   *)
+(*         of the APIs have no operation ids; all requests of a case are    *)
+(*         served in sequence by the same Context                           *)
 (* events: built {produces}   route.Produces as the router holds it          *)
-(*         respond {entry, method, target, creds, accept, outcome, status,   *)
-(*                  ctype, produced, given, body, errs, wwwauth, panic}      *)
+(*         respond {entry, method, target, creds, keycreds, declared, accept, *)
+(*                  outcome, status, ctype, produced, given, body, errs,     *)
+(*                  wwwauth, panic}                                          *)
 EXTENDS Respond, Json, IOUtils
 
 VARIABLES l, st, skipping, fails, cs
 
 RInit(e) == [produces |-> e.route_produces, default |-> e.default, registry |-> e.registry,
-             declared |-> e.declared, realm |-> e.realm, secure |-> e.secure, authkind |-> e.authkind]
+             declared |-> <<>>, realm |-> e.realm, secure |-> e.secure, authkind |-> e.authkind]
+\* the configuration as the addressed operation sees it
+Op(c, e) == [c EXCEPT !.declared = e.declared]
 
 EffRealm(c) == IF c.realm = "" \/ c.authkind = 2 THEN "API" ELSE c.realm     \* security.DefaultRealmName
 
 Rq(e) == [method |-> e.method, accept |-> e.accept]
 Err(code) == [k |-> "error", code |-> code, scripted |-> FALSE]
 
+\* security of /op: basic alone, basic OR api key (both orders), basic AND api key
+Authenticated(c, e) ==
+  CASE c.secure = "none"          -> TRUE
+    [] c.secure = "basic"         -> e.creds = "good"
+    [] c.secure = "basic-and-key" -> e.creds = "good" /\ e.keycreds = "good"
+    [] OTHER                      -> e.creds = "good" \/ e.keycreds = "good"
+\* a basic-auth attempt failed and the request was refused.  In the AND group the basic scheme is certainly
+\* consulted only when the key was accepted (either evaluation order); otherwise the statement is silent.
+BasicFailed(c, e) ==
+  /\ e.target = "op" /\ ~Authenticated(c, e) /\ e.creds # "good"
+  /\ CASE c.secure = "basic-and-key" -> e.keycreds = "good"
+       [] OTHER -> TRUE
+
 \* which stage answers: the router (no route), authentication, the Accept gate, or the handler's outcome
 Answer(c, e) ==
   IF e.target = "missing" THEN Err(404)
   ELSE IF e.target = "wrongmethod" THEN Err(405)
-  ELSE IF c.secure /\ e.creds # "good" THEN Err(401)
-  ELSE IF Negotiated(c, Rq(e)) = {} THEN Err(406)
+  ELSE IF ~Authenticated(c, e) THEN Err(401)
+  ELSE IF c.produces # <<>> /\ Negotiated(c, Rq(e)) = {} THEN Err(406)     \* no 406 gate when nothing is produced
   ELSE [k |-> e.outcome.k, code |-> e.outcome.code, scripted |-> e.outcome.scripted]
-
-BasicFailed(c, e) == e.target = "op" /\ c.secure /\ e.creds # "good"
 
 RespondOK(c, e) ==
   LET a == Answer(c, e) IN
@@ -39,14 +56,12 @@ RespondOK(c, e) ==
 
 RAllowed(s, e) ==
   CASE e.ev = "built"   -> e.produces = [i \in DOMAIN s.produces |-> Render(s.produces[i])]
-    [] e.ev = "respond" -> RespondOK(s, e)
+    [] e.ev = "respond" -> RespondOK(Op(s, e), e)
     [] OTHER -> FALSE
 
-RWhy(s, e) ==
-  CASE e.ev = "built" -> "route-produces-differ-from-declared-plus-default"
-    [] e.ev = "respond" ->
-         LET a == Answer(s, e) IN
-         IF e.panic THEN "panic"
+RespondWhy(s, e) ==
+  LET a == Answer(s, e) IN
+  IF e.panic THEN "panic"
          ELSE IF BasicFailed(s, e) /\ e.wwwauth # Challenge(EffRealm(s)) THEN "basic-auth-challenge-missing-or-wrong-realm"
          ELSE IF a.k = "error" THEN
               (IF Len(e.errs) # 1 THEN "error-responder-not-invoked-exactly-once"
@@ -61,6 +76,10 @@ RWhy(s, e) ==
          ELSE IF ~\E f \in Negotiated(s, Rq(e)) : e.ctype = Render(f) THEN "content-type-is-not-the-negotiated-type"
          ELSE IF (e.method = "HEAD" \/ MinSuccess(s) = 204) /\ (e.produced # <<>> \/ e.body # "") THEN "body-written-for-HEAD-or-204"
          ELSE "body-not-written-by-the-producer-of-the-negotiated-type"
+
+RWhy(s, e) ==
+  CASE e.ev = "built" -> "route-produces-differ-from-declared-plus-default"
+    [] e.ev = "respond" -> RespondWhy(Op(s, e), e)
     [] OTHER -> "unknown-event"
 
 RStep(s, e) == s
